@@ -237,8 +237,8 @@ func genCoroScript(t *core.Tape, noCoInClose bool) (string, map[string]bool) {
 
 // execScript runs src under a scheduler drawing from sch and returns the log,
 // the outcome and the scheduler (for its counters).
-func execScript(src string, sch *core.Tape, maxSteps int) (events []string, outcome string, leak string, s *core.Sched) {
-	s = core.NewSched(sch, maxSteps)
+func execScript(src string, sch *core.Tape, maxSteps int) (events []string, outcome string, leak string, st core.SchedStats) {
+	s := core.NewSched(sch, maxSteps)
 	log := core.GetLog()
 	defer core.PutLog(log)
 	s.Begin()
@@ -259,7 +259,9 @@ func execScript(src string, sch *core.Tape, maxSteps int) (events []string, outc
 	if l2 := s.End(); leak == "" {
 		leak = l2
 	}
-	return events, outcome, leak, s
+	st = s.Stats()
+	s.Release()
+	return events, outcome, leak, st
 }
 
 func featList(f map[string]bool) string {
@@ -280,7 +282,7 @@ func runCoroFree(ctx *core.RunCtx) {
 	ctx.Count("sched.steps", int64(s1.Steps))
 	ctx.Count("sched.decisions", int64(s1.Switches))
 	ctx.Count("fault.handoff-order(non-default decisions)", int64(s1.NonDefault))
-	ctx.Count("sched.tasks", int64(s1.Tasks()))
+	ctx.Count("sched.tasks", int64(s1.Tasks))
 	ctx.Count("probe.tail-vs-head windows", int64(s1.TailHeadRace))
 	for f := range feat {
 		ctx.Count("feature."+f, 1)
